@@ -14,6 +14,7 @@ at stages 1..5, the command line and property map of a task, the value a call ge
 Oracle: spec/VarStackTrace.tla - TLC computes every expected value from the TLA+ definitions.
 """
 import concurrent.futures
+import threading
 import itertools
 import json
 import os
@@ -25,37 +26,51 @@ WORKERS = int(os.environ.get("VERIF_WORKERS", "0") or 0) or vlib.NCPU
 NPROC = max(2, min(8, (int(os.environ.get("VERIF_WORKERS", "0") or 0) or vlib.NCPU // 2)))
 
 INV_MAIN = ("CodeAgreesResolve CodeAgreesStages CodeAgreesMaps NearerWins UserOverVarsOverDefaults EmptyIsDefinition "
-            "DefinedIffResolved StageEnds StageBlind LocalRanksAsVars")
+            "DefinedIffResolved StageEnds StageBlind LocalRanksAsVars IncludeIsALevel")
 
 
-def cfg_model(maxd, with_it, with_class, invs):
+def _b(x):
+    return "TRUE" if x else "FALSE"
+
+
+def cfg_model(maxd, with_it, with_class, invs, with_inc=False, role_depth=None, env="EnvAll"):
     return """SPECIFICATION Spec
 CONSTANTS
   MaxD = %d
   WithIt = %s
   WithClass = %s
+  WithInc = %s
+  RoleDepth = %d
+  EnvCells <- %s
 INVARIANTS %s
 CHECK_DEADLOCK FALSE
-""" % (maxd, "TRUE" if with_it else "FALSE", "TRUE" if with_class else "FALSE", invs)
+""" % (maxd, _b(with_it), _b(with_class), _b(with_inc), maxd if role_depth is None else role_depth, env, invs)
 
 
-def cfg_gen(gend):
+def cfg_gen(gend, inc_levels=()):
     return """SPECIFICATION Spec
 CONSTANTS
   MaxD = 0
   WithIt = FALSE
   WithClass = FALSE
+  WithInc = FALSE
+  RoleDepth = 0
+  EnvCells <- EnvFew
   GenD = %d
+  IncLevels = {%s}
 CHECK_DEADLOCK FALSE
-""" % gend
+""" % (gend, ", ".join(str(x) for x in inc_levels))
 
 
 def cfg_trace(nchunks):
     return """SPECIFICATION TraceSpec
 CONSTANTS
-  MaxD = 3
+  MaxD = 4
   WithIt = TRUE
   WithClass = TRUE
+  WithInc = TRUE
+  RoleDepth = 4
+  EnvCells <- EnvAll
   NChunks = %d
 INVARIANT PrintEnd
 CHECK_DEADLOCK FALSE
@@ -83,12 +98,14 @@ def validate(ctx, trace_file, nlines):
     return viol, drift, r
 
 
-def gen_catalogues(ctx, gend):
-    """TLC evaluates the catalogues of VarStackGen for depth gend; returns {family: [case, ...]}."""
-    files = {fam: ctx.path("gen", "%s_d%d.ndjson" % (fam, gend)) for fam in ("two", "it", "class")}
-    r = ctx.tlc("VarStackGen", None, workers=1, cfg_text=cfg_gen(gend), timeout=300,
-                env={"GEN_TWO": files["two"], "GEN_IT": files["it"], "GEN_CLASS": files["class"]})
-    if not r.no_error or len(r.records("GEN")) != 3:
+def gen_catalogues(ctx, gend, inc_levels=()):
+    """TLC evaluates the catalogues of VarStackGen for depth gend (the plain ones, or - inc_levels given - the ones with an
+    include role at these levels); returns {family: [case, ...]}."""
+    fams = ("inc", "inctwo") if inc_levels else ("two", "it", "class")
+    files = {fam: ctx.path("gen", "%s_d%d.ndjson" % (fam, gend)) for fam in fams}
+    r = ctx.tlc("VarStackGen", None, workers=1, cfg_text=cfg_gen(gend, inc_levels), timeout=300,
+                env={"GEN_" + fam.upper(): f for fam, f in files.items()})
+    if not r.no_error or len(r.records("GEN")) != len(fams):
         ctx.save_debug(r, "tlc_gen_d%d.txt" % gend)
         raise vlib.Inconclusive("case generation (VarStackGen, d=%d) failed: %s" % (gend, vlib.tail(r.out)))
     out = {}
@@ -107,8 +124,8 @@ def pick(rng, cases, n):
 
 
 def canonical(c):
-    return json.dumps([c["fam"], c["d"], c["c"], c.get("o") or [], c.get("ref") or [], c.get("it", 0), c.get("cc") or [0, 0]],
-                      separators=(",", ":"))
+    return json.dumps([c["fam"], c["d"], c["c"], c.get("o") or [], c.get("ref") or [], c.get("it", 0), c.get("cc") or [0, 0],
+                       c.get("inc", 0)], separators=(",", ":"))
 
 
 def pattern(c):
@@ -127,16 +144,45 @@ def pattern(c):
         s += " o:" + vec(c["o"], [])
     if c.get("it"):
         s += " it:%d" % c["it"]
+    if c.get("inc"):
+        s += " include:%d" % c["inc"]
     if c.get("cc") and c["cc"] != [0, 0]:
         s += " class:" + "-eV"[c["cc"][0]] + "-eV"[c["cc"][1]]
     return s
+
+
+RENDERED = {"A": ["defaults entry (stage 1)", "vars entry (stage 2)", "user var (stage 3)", "name (stage 4)", "constraint (stage 5)"],
+            "S": ["defaults entry (stage 1)", "vars entry (stage 2)", "constraint (stage 5)"],
+            "B": ["defaults entry (stage 1)", "vars entry (stage 2)", "name (stage 4)", "constraint (stage 5)"]}
+ROLE = {"A": "aggregator", "T": "task role", "C": "call role", "I": "include role", "S": "included sub-workflow root",
+        "B": "aggregator inside the sub-workflow"}
+
+
+def field_name(inv, variant, j):
+    """Name of position j of a recorded role (see spec/VarStackTrace.tla ExpectedRecord)."""
+    if not isinstance(j, int):
+        return str(j)
+    if inv == "ClassBelowWorkflow":
+        return ["command value", "argument", "env", "property"][j - 1]
+    if variant == "I":
+        return "stage %d stack" % (j - 3) if j <= 8 else "name (stage 4)"
+    if j == 3:
+        return "ConsolidatedVarStack"
+    if 4 <= j <= 9:
+        return "stage %d stack" % (j - 4)
+    if variant == "C":
+        return "call result"
+    if 10 <= j <= 12:
+        return "ConsolidatedVarMaps " + ["defaults", "vars", "user vars"][j - 10]
+    names = RENDERED.get(variant, [])
+    return names[j - 13] if 0 <= j - 13 < len(names) else "field %d" % j
 
 
 def run(ctx):
     quick = ctx.tier == "quick"
     rng = random.Random(ctx.seed * 1000003 + (0 if quick else 1))
     ctx.assumptions += [
-        "a path of at most 3 nested roles under the environment; one probed key (plus one referenced key); what a role sees does "
+        "a path of at most 4 nested roles under the environment; one probed key (plus one referenced key); what a role sees does "
         "not depend on its siblings or descendants",
         "role-level user vars are set with Role.SetRuntimeVar (the YAML cannot carry them); environment-level cells are the three "
         "maps behind workflow.ParentAdapter, as environment.newEnvironment builds them from Consul and the request",
@@ -145,11 +191,13 @@ def run(ctx):
         "the iterator variable is read as: on top of the stack during the generated role's own template stages, a vars definition "
         "of that role afterwards (configuration/template/fields.go, ProcessTemplates of the role types)",
         "the stage table is the one in configuration/template/fields.go (Stage constants, VarStack.consolidated); the handbook has none",
-        "include roles (a subworkflow adds a level) and the whole-core path (TaskInfo.Data, CONFIGURE properties over the wire) are "
-        "not exercised here",
+        "an include role is two levels: its own defaults/vars/user vars, then the root of the sub-workflow it loads (served from "
+        "memory by VerifVSLoadSubworkflowFunc, the same steps as the loadSubworkflow closure of workflow.Load); roles inside the "
+        "sub-workflow get no user vars of their own (it does not exist before the load)",
+        "the whole-core path (TaskInfo.Data, CONFIGURE properties over the wire) is not exercised here",
     ]
     ctx.rule = ("case = an assignment of {absent, empty, value} to the 3 kinds x (d+1) levels of key k [+ second key with a template "
-                "reference, iterator level, task-class cells]; distinct = distinct assignments; non-trivial = at least one cell defined; "
+                "reference, iterator level, include-role level, task-class cells]; distinct = distinct assignments; non-trivial = at least one cell defined; "
                 "every case is built as a real workflow and every role on the path is observed")
 
     replay_case = None
@@ -157,11 +205,22 @@ def run(ctx):
         with open(ctx.replay) as fh:
             replay_case = json.load(fh)["replay"]["scenario"]
 
-    # 1. the model: declarative precedence = operational code model, on every path
-    if not replay_case:
-        ctx.model_check("VarStack", "d2-iterators", cfg_text=cfg_model(2, True, False, INV_MAIN), workers=WORKERS, timeout=600)
+    # 1. the model: declarative precedence = operational code model, on every path (runs while the cases are driven, see 3.)
+    def check_model():
+        if quick:
+            ctx.model_check("VarStack", "d2", cfg_text=cfg_model(2, False, False, INV_MAIN), workers=WORKERS, timeout=600)
+        else:
+            ctx.model_check("VarStack", "d2-iterators", cfg_text=cfg_model(2, True, False, INV_MAIN), workers=WORKERS, timeout=600)
         ctx.model_check("VarStack", "class-d%d" % (1 if quick else 2),
                         cfg_text=cfg_model(1 if quick else 2, False, True, "ClassBelowWorkflow"), workers=WORKERS, timeout=600)
+        # include roles (written out or generated by an iterator) under the workflow root; in quick the same run
+        # carries the iterator-generated plain roles (one environment vector)
+        if quick:
+            ctx.model_check("VarStack", "d3-include-iterators", workers=WORKERS, timeout=900,
+                            cfg_text=cfg_model(3, True, False, INV_MAIN, with_inc=True, role_depth=2, env="EnvOne"))
+        else:
+            ctx.model_check("VarStack", "d3-include", workers=WORKERS, timeout=900,
+                            cfg_text=cfg_model(3, False, False, INV_MAIN, with_inc=True, role_depth=1, env="EnvAll"))
         if not quick:
             ctx.model_check("VarStack", "d3", cfg_text=cfg_model(3, False, False, INV_MAIN), workers=WORKERS, timeout=1500)
         bad = [m for m in ctx.model_runs if m["result"] != "ok"]
@@ -175,13 +234,13 @@ def run(ctx):
         cases.append(dict(replay_case))
     else:
         def single(d, vec):
-            # class cells drawn at random; the task / call role variants of every level are built for a third of this family
+            # class cells drawn at random; the task / call role variants of every level are built for a quarter of this family
             return {"fam": "one", "d": d, "c": list(vec), "it": 0, "cc": [rng.randrange(3), rng.randrange(3)],
-                    "notc": d >= 2 and rng.random() < 2 / 3}
+                    "notc": d >= 2 and rng.random() < 3 / 4}
         for d in (1, 2):
             for vec in itertools.product((0, 1, 2), repeat=3 * (d + 1)):
                 cases.append(single(d, vec))
-        n3 = 1500 if quick else 30000
+        n3 = 600 if quick else 30000
         seen = set()
         while len(seen) < n3:
             seen.add(rng.randrange(3 ** 12))
@@ -193,9 +252,14 @@ def run(ctx):
             cases.append(single(3, vec))
         cat2 = gen_catalogues(ctx, 2)
         ctx.extra["catalogues"] = {"d2": {k: len(v) for k, v in cat2.items()}}
-        cases += pick(rng, cat2["two"], 1500 if quick else None)
-        cases += pick(rng, cat2["it"], 1000 if quick else None)
+        cases += pick(rng, cat2["two"], 1000 if quick else None)
+        cases += pick(rng, cat2["it"], 600 if quick else None)
         cases += cat2["class"]
+        # include roles: plain, with own defaults/vars/user vars, generated by an iterator; leaves below the sub-workflow root
+        cati = gen_catalogues(ctx, 4, (2,) if quick else (2, 3))
+        ctx.extra["catalogues"]["d4-include"] = {k: len(v) for k, v in cati.items()}
+        cases += pick(rng, cati["inc"], 700 if quick else 8000)
+        cases += pick(rng, cati["inctwo"], 250 if quick else None)
         if not quick:
             cat3 = gen_catalogues(ctx, 3)
             ctx.extra["catalogues"]["d3"] = {k: len(v) for k, v in cat3.items()}
@@ -218,8 +282,26 @@ def run(ctx):
     ctx.extra["cases"] = fams
     ctx.log("cases: %s" % json.dumps(fams))
 
-    # 3. run them on the real code (several driver processes side by side: a case costs ~2-4 ms of real template processing)
-    binp = ctx.build("varstack")
+    # 3. run them on the real code (several driver processes side by side: a case costs ~2-8 ms of real template processing)
+    #    while TLC checks the model (no other TLC run is started before the model thread is joined)
+    model_err = []
+
+    def model_thread():
+        try:
+            check_model()
+        except BaseException as e:  # re-raised in the main thread
+            model_err.append(e)
+
+    mt = None
+    if not replay_case:
+        mt = threading.Thread(target=model_thread)
+        mt.start()
+    try:
+        binp = ctx.build("varstack")
+    except BaseException:
+        if mt:
+            mt.join()
+        raise
     nproc = 1 if len(cases) < 200 else NPROC
     chunks = [cases[i::nproc] for i in range(nproc)]
 
@@ -230,8 +312,14 @@ def run(ctx):
         out = ctx.run([binp, "-scenarios", scn, "-trace", trc], timeout=1500)
         return trc, out.strip()
 
-    with concurrent.futures.ThreadPoolExecutor(max_workers=nproc) as ex:
-        results = list(ex.map(drive, range(nproc)))
+    try:
+        with concurrent.futures.ThreadPoolExecutor(max_workers=nproc) as ex:
+            results = list(ex.map(drive, range(nproc)))
+    finally:
+        if mt:
+            mt.join()
+    if model_err:
+        raise model_err[0]
     lines = []
     for trc, out in results:
         lines += ctx.read_ndjson(trc)
@@ -270,7 +358,8 @@ def run(ctx):
         seen_v.add(sig)
         vd = {"inv": inv, "fam": c.get("fam"), "pattern": pattern(c) if c else "?", "d": c.get("d"), "detail": detail}
         if isinstance(detail, list) and len(detail) >= 5:
-            vd.update({"level": detail[0], "role": detail[1], "field": detail[2], "got": detail[3], "expected": detail[4]})
+            vd.update({"level": detail[0], "role": ROLE.get(detail[1], detail[1]), "field": field_name(inv, detail[1], detail[2]),
+                       "got": detail[3], "expected": detail[4]})
         ctx.add_violation(vd, replay_obj={"scenario": c, "trace": [x for x in lines if x["scn"] == scn]})
     ctx.extra["viol_records"] = total
 
